@@ -339,6 +339,67 @@ fn arrivals_during_consent(rep: &mut Report, only: Option<u64>) {
     }
 }
 
+/// The user-validation method's capability report changes between two ceremonies on one authenticator:
+/// each ceremony is judged by the report in force when it runs.
+fn capability_changes(rep: &mut Report, only: Option<u64>) {
+    let mut index = 60_000u64;
+    for first_make in [true, false] {
+        for second_make in [true, false] {
+            for before in [Some(true), Some(false), None] {
+                for after in [Some(true), Some(false), None] {
+                    index += 1;
+                    if only.map_or(false, |o| o != index) {
+                        continue;
+                    }
+                    rep.eval();
+                    let cj = json!({"index": index, "level": "ctap", "part": "verification capability changes between two ceremonies", "first": if first_make {"make_credential"} else {"get_assertion"},
+                        "then": if second_make {"make_credential"} else {"get_assertion"}, "capability_first": before, "capability_then": after});
+                    rep.nontrivial(fnv_str(&cj.to_string()));
+                    let mut rng = Rng::derive(7, "c04cap", index);
+                    let rig = Rig::new(Disc::Full, UvOutcome::Check { presence: true, verification: true }, before);
+                    let (a, _, _) = seeded_passkey(&mut rng, RP, &[0xA0; 16], Some(b"user"), Some(3), None);
+                    rig.store.insert_raw(a);
+                    let mut auth = rig.auth(AuthCfg { counters: true, ..Default::default() });
+                    let mut run = |make: bool, tag: u8| -> Result<bool, (String, String)> {
+                        catch(|| {
+                            if make {
+                                block_on(auth.make_credential(mc_request(RP, &[tag], &[1u8; 32], vec![pk_param(coset::iana::Algorithm::ES256)], None, None, false, true, true))).is_ok()
+                            } else {
+                                block_on(auth.get_assertion(ga_request(RP, &[2u8; 32], Some(vec![descriptor(&[0xA0; 16])]), None, true, true))).is_ok()
+                            }
+                        })
+                    };
+                    let first = run(first_make, 1);
+                    rig.uv.set_verification_capability(after);
+                    let snap = rig.store.snapshot();
+                    rig.log.clear();
+                    let second = run(second_make, 2);
+                    let changed = rig.store.snapshot() != snap;
+                    match (first, second) {
+                        (Err((sig, d)), _) | (_, Err((sig, d))) => rep.violate(&format!("ctap: ceremony {sig}"), d, cj),
+                        (Ok(f), Ok(s)) => {
+                            rep.count("capability_change_cases");
+                            if f != (before == Some(true)) {
+                                rep.violate("ctap: a ceremony asking for verification did not succeed exactly when verification is configured", format!("first ceremony ok={f} under {before:?}"), cj.clone());
+                            }
+                            if after != Some(true) {
+                                if s {
+                                    rep.violate("ctap: ceremony succeeded although consent is missing (verification requested but absent/unconfigured)", format!("capability was {before:?} for the previous ceremony on this authenticator and is {after:?} now"), cj.clone());
+                                }
+                                if changed {
+                                    rep.violate("ctap: store changed although consent is missing (verification requested but absent/unconfigured)", String::new(), cj.clone());
+                                }
+                            } else if !s {
+                                rep.violate("ctap: a ceremony asking for verification did not succeed exactly when verification is configured", format!("second ceremony refused under {after:?} (was {before:?})"), cj.clone());
+                            }
+                        }
+                    }
+                }
+            }
+        }
+    }
+}
+
 fn run_client(rep: &mut Report, index: u64, register: bool, uvr: UserVerificationRequirement, ver_cap: Option<bool>, outcome: UvOutcome, store: StoreContent, outcomes: &mut HashMap<String, Vec<(StoreContent, bool, Option<u8>)>>) {
     rep.eval();
     let cj = json!({"index": index, "level": "client", "op": if register {"register"} else {"authenticate"}, "userVerification": format!("{uvr:?}"),
@@ -395,7 +456,7 @@ pub fn run(args: &Args) -> Report {
         "C04",
         &args.tier,
         args.seed,
-        "complete product operation x rk x up x uv x verification capability x presence capability x user-validation outcome (4 reports + 2 errors) x pin-auth x store content (no / one / two matching credentials, exclude-list hit or miss; for assertions: no allow list / naming a held id / naming an unknown id) at CTAP level, plus 36 assertion cases in which another credential of the RP arrives in the store while the user is being asked, plus userVerification x capability x outcome x store content at client level; distinct by the tuple; every tuple is non-trivial (finite product)",
+        "complete product operation x rk x up x uv x verification capability x presence capability x user-validation outcome (4 reports + 2 errors) x pin-auth x store content (no / one / two matching credentials, exclude-list hit or miss; for assertions: no allow list / naming a held id / naming an unknown id) at CTAP level, plus 36 assertion cases in which another credential of the RP arrives in the store while the user is being asked, plus 36 pairs of ceremonies on one authenticator between which the verification capability report changes, plus userVerification x capability x outcome x store content at client level; distinct by the tuple; every tuple is non-trivial (finite product)",
     );
     rep.exhaustive = true;
     let only = replay_index(args);
@@ -433,6 +494,9 @@ pub fn run(args: &Args) -> Report {
     rep.obs("client_product_size", json!(k - 100_000));
     if only.map_or(true, |o| (50_000..60_000).contains(&o)) {
         arrivals_during_consent(&mut rep, only);
+    }
+    if only.map_or(true, |o| (60_000..70_000).contains(&o)) {
+        capability_changes(&mut rep, only);
     }
     // (I4) while consent is missing the outcome does not depend on the store content
     for (group, v) in &outcomes {
